@@ -959,6 +959,24 @@ fn run_sim(prop: &str, cfg: &Config, ch: &mut Chooser<Action>, ctx: &mut RunCtx)
         let mut task = TaskWake::new();
         let mut parked = false;
         let mut started: Vec<(usize, u16)> = Vec::new();
+        {
+            // what the reference composition starts at once must have been started by
+            // `new_service` itself, not by the first poll of the future it returned
+            let mut eager: Vec<(usize, u16)> = Vec::new();
+            note_started(&rf, &mut eager);
+            for (leaf, c) in &eager {
+                let got = w(|x| x.leaves[*leaf].new_service_cfgs.clone());
+                if got != vec![*c] {
+                    return Some(Violation::new(
+                        "factory-start-deferred",
+                        format!("new_service({}) has returned but inner factory {leaf} was asked to build with {got:?}; the reference composition asks it at once, with config {c}", cfg.root_cfg),
+                    ));
+                }
+            }
+            if !eager.is_empty() {
+                ctx.bump("probe.eager_factory_start_checked");
+            }
+        }
         let mut polls = 0;
         let mut outcome: Option<Result<Node, V>> = None;
         let mut budget_left = true;
@@ -1293,6 +1311,17 @@ fn run_sim(prop: &str, cfg: &Config, ch: &mut Chooser<Action>, ctx: &mut RunCtx)
                 let fut = svc.as_ref().unwrap().call(req.clone());
                 flush_log(ctx);
                 ev!(ctx, "call {req:?}");
+                if let Some((leaf, trace)) = calls.first() {
+                    // the first stage is invoked by `call` itself (requests reach it in call
+                    // order, whatever the order in which the returned futures are polled)
+                    let there = w(|x| x.call_log.iter().any(|(l, r)| l == leaf && r == trace));
+                    if !there {
+                        return Some(Violation::new(
+                            "call-deferred",
+                            format!("call({req:?}) has returned but the first stage (leaf {leaf}) has not been invoked with {trace:?}"),
+                        ));
+                    }
+                }
                 futs.push(RootFut { fut: Some(fut), task: TaskWake::new(), parked: false, req, expect, expect_calls: calls, done: false });
             }
             Action::PollFut(i) | Action::SpuriousPollFut(i) => {
